@@ -222,6 +222,8 @@ impl Scenario for LifecycleScenario {
         let verdict: StdArc<StdMutex<Option<(String, String)>>> = StdArc::new(StdMutex::new(None));
         let fired = StdArc::new(AtomicBool::new(false));
         let killed_running = StdArc::new(AtomicBool::new(false));
+        let failed_create = StdArc::new(AtomicBool::new(false));
+        let failed_create2 = StdArc::clone(&failed_create);
         let killed_running2 = StdArc::clone(&killed_running);
         let (trace2, verdict2, fired2, ops2) = (StdArc::clone(&trace), StdArc::clone(&verdict), StdArc::clone(&fired), ops.clone());
         let input_seed = pu64(p, "input_seed");
@@ -229,12 +231,16 @@ impl Scenario for LifecycleScenario {
         let outcome = run_sim(&spec, StdArc::new(AtomicBool::new(false)), move || {
             let (trace, verdict, fired, ops) = (StdArc::clone(&trace2), StdArc::clone(&verdict2), StdArc::clone(&fired2), ops2.clone());
             let killed_running = StdArc::clone(&killed_running2);
+            let failed_create = StdArc::clone(&failed_create2);
             shuttle::future::block_on(async move {
                 let world = build(shards, reject, &fired);
                 let mut m = vec![vec![N; shards]; 3]; // the reference model
                 // per shard ring: helpers whose task was started in this generation / killed while possibly unfinished
                 let mut started = vec![[false; 3]; shards];
                 let mut broken = vec![false; shards];
+                // nodes that may hold the residue of a failed create: a task started there belongs to a query its peers
+                // never joined, so waiting for it may never end
+                let mut tainted = vec![vec![false; shards]; 3];
                 let cfg = QueryConfig { size: QuerySize::try_from(2 * pairs).unwrap(), field_type: FieldType::Fp31, query_type: QueryType::TestMultiply };
                 let mut rng = <rand::rngs::StdRng as rand::SeedableRng>::seed_from_u64(input_seed);
                 let bad = |class: &str, detail: String| {
@@ -283,20 +289,24 @@ impl Scenario for LifecycleScenario {
                                     }
                                     started = vec![[false; 3]; shards];
                                     broken = vec![false; shards];
+                                    tainted = vec![vec![false; shards]; 3];
                                     gen_inputs = inputs(&mut rng);
                                 }
                                 Err(e) => {
+                                    failed_create.store(true, AO::SeqCst);
                                     let injected = fired.load(AO::SeqCst);
                                     if all_none && s == 0 && !injected {
                                         bad("create_rejected_without_reason", format!("op {k}: new_query on H{}/s0 failed on an idle system: {e}", h + 1));
                                     }
                                     if m[h][s] == N || m[h][s] == X {
                                         // failed creation leaves no trace on the node that executed it; peers may keep residue
+                                        // (a new generation of the query as far as their tasks are concerned)
                                         {
                                             for (hh, row) in m.iter_mut().enumerate() {
                                                 for (ss, x) in row.iter_mut().enumerate() {
                                                     if (hh, ss) != (h, s) && *x == N {
                                                         *x = X;
+                                                        tainted[hh][ss] = true;
                                                     }
                                                 }
                                             }
@@ -366,7 +376,7 @@ impl Scenario for LifecycleScenario {
                             for (hh, ss) in targets {
                                 // a completion on a running query waits for the task: only issue it when the task can finish
                                 let affected: Vec<usize> = if ss == 0 { (0..shards).collect() } else { vec![ss] };
-                                let would_block = affected.iter().any(|a| m[hh][*a] == R && !can_finish(&started, &broken, *a)) || affected.iter().any(|a| m[hh][*a] == X);
+                                let would_block = affected.iter().any(|a| m[hh][*a] == R && (!can_finish(&started, &broken, *a) || tainted[hh][*a])) || affected.iter().any(|a| m[hh][*a] == X);
                                 if would_block {
                                     note.push('-');
                                     continue;
@@ -404,6 +414,9 @@ impl Scenario for LifecycleScenario {
                                                     m[hh][*a] = X;
                                                 }
                                             }
+                                            // the leader forgot a query whose task may still be running, and its record streams are
+                                            // gone with it: the ring peers of that task may now wait for it forever
+                                            broken[ss] = true;
                                         }
                                     }
                                     (Err(_), A) | (Err(_), N) => {} // refused, state unchanged (checked by later operations)
@@ -447,6 +460,14 @@ impl Scenario for LifecycleScenario {
                 for _ in 0..200 {
                     shuttle::future::yield_now().await;
                 }
+                // tear-down: forget whatever is still registered, so that tasks which can never finish (their ring
+                // peers never got inputs) do not count as a blocked client
+                for h in 0..3 {
+                    for s in 0..shards {
+                        let addr = Addr { route: RouteId::KillQuery, origin: None, query_id: Some(QueryId), gate: None, params: String::new() };
+                        let _ = world.nodes[h][s].mpc_handler.handle(addr, BodyStream::empty()).await;
+                    }
+                }
                 drop(world);
             });
         });
@@ -456,10 +477,11 @@ impl Scenario for LifecycleScenario {
         }
         match outcome.class {
             "finished" => {}
-            "panic" if killed_running.load(AO::SeqCst) && outcome.panic_msg.as_ref().is_some_and(|m| m.contains("query/executor.rs")) => {
-                // artifact of the executor stub (see above): not a property of the code under test
+            "panic" if killed_running.load(AO::SeqCst) => {
+                // the no-panic clause speaks of histories whose query tasks END BY RETURNING; a task killed while running
+                // does not (and under shuttle it is not even cancelled: abort only detaches it). Counted, not judged.
                 let mut r = RunRes::pass(shape, true, Some(outcome));
-                r.probe("shuttle_abort_artifact", 1);
+                r.probe("panic_after_kill_of_running_query_not_judged", 1);
                 return r;
             }
             "panic" if outcome.panic_msg.as_ref().is_some_and(|m| m.contains("in_memory/transport.rs")) => {
@@ -468,6 +490,12 @@ impl Scenario for LifecycleScenario {
                 let mut r = RunRes::pass(shape, true, Some(outcome));
                 r.probe("in_memory_transport_ack_artifact", 1);
                 return r;
+            }
+            "panic" if outcome.panic_msg.as_ref().is_some_and(|m| m.contains("stream/collection.rs")) => {
+                // one call site, one class: a record stream of a new query generation reaches a helper that still holds
+                // streams of an earlier generation (see known_findings.json)
+                return RunRes::violation("helper_panics_on_stale_record_stream",
+                    format!("{}; failed create earlier in the history: {}; history: {}", truncate(&outcome.panic_msg.clone().unwrap_or_default(), 300), failed_create.load(AO::SeqCst), truncate(&tr, 900)), shape, Some(outcome));
             }
             "panic" => return RunRes::violation("helper_panicked", format!("{}; history: {}", truncate(&outcome.panic_msg.clone().unwrap_or_default(), 300), truncate(&tr, 900)), shape, Some(outcome)),
             c => return RunRes::violation("lifecycle_no_progress", format!("{c}: the client blocked; history: {}", truncate(&tr, 900)), shape, Some(outcome)),
